@@ -44,6 +44,7 @@ var gvcAPIScenarios = []gvcAPIScenario{
 	{"elision-where-none-is-supported-on-a-plus-line", "@@\n@@\n-foo(x)\n+if ... { foo(x) }\n", "package x\n\nfunc f() {\n\tfoo(x)\n}\n", true},
 	{"comment-group-emptied-by-one-change-then-an-import-added-by-the-next", "@@\nvar x, y expression\n@@\n-foo(x, y)\n+y\n\n@@\n@@\n+import \"fmt\"\n\n-2\n+fmt.Println()\n", "package a\n\nfunc f() {\n\tfoo(1, // c\n\t\t2)\n}\n", true},
 	{"comments-of-a-function-between-two-rewritten-calls", "@@\nvar a, b expression\n@@\n-x := foo(a, b)\n+x := foo(a, b...)\n", "package a\n\nfunc first() {\n\tx := foo(1, xs)\n\t_ = x\n}\n\n// Doc of middle.\nfunc middle() {\n\t// inside middle\n\tbar() // trailing in middle\n}\n\nfunc last() {\n\tx := foo(2, ys)\n\t_ = x\n}\n", true},
+	{"second-change-visits-a-comment-group-emptied-by-the-first", "@@\n@@\n-one()\n+uno()\n\n@@\n@@\n-foo()\n+x.y\n\n@@\n@@\n-baz()\n+qux()\n", "package a\n\nfunc f() {\n\tvar x = one() // c\n\tfoo()\n\tbaz()\n}\n", true},
 	{"elision-both-sides", "@@\n@@\n func f() {\n   ...\n-  foo()\n+  bar()\n+  baz()\n   ...\n }\n", "package a\n\nfunc f() {\n\ta()\n\tfoo()\n\tb()\n\tc()\n}\n", true},
 }
 
